@@ -318,12 +318,13 @@ func checkC09(tier, replay string) int {
 	ctx.Cov["traces_validated_against_impl"] = st.replayed
 	refusedNoMem, budgetLoads := c09Budget(ctx)
 	ctx.Cov["loads_of_policies_that_restrict_nothing"] = c09Permissive(ctx)
+	ctx.Cov["support_probes_under_filters_that_refuse_part_of_seccomp"] = c09SupportedEnv(ctx)
 	ctx.Cov["budget_history_loads"] = budgetLoads
 	ctx.Cov["budget_history_refusals_ENOMEM"] = refusedNoMem
 	ctx.Cov["final_steps_by_kernel_answer"] = map[string]int64{"attached": st.attached, "tsync_refused": st.refusals, "EACCES": st.eacces, "EINVAL": st.einval, "invalid_policy_no_kernel_contact": st.invalid, "EPERM_from_an_earlier_filter_that_denies_seccomp": st.denied}
 	ctx.Cov["model_kernel_mismatches"] = st.modelMismatch
 	ctx.Cov["depth"] = depth
-	ctx.Cov["rule"] = "explicit-state breadth-first search over the kernel model (3 harness threads + the class of all other threads; per thread: no_new_privs bit and filter stack with ancestry) with 85 operations (Load on T0..T2 x {A,B,invalid (unknown name / argument index 6 / empty condition list, by thread),oversize,badflag,denysec = a filter that answers EPERM to seccomp(2) itself} x tsync x nnp, valid kinds also with the log flag; Supported) from the privileged and the uid-65534 initial state, deduplicated on the canonical model state; every transition is replayed by running its shortest history plus the operation through the real LoadFilter in a fresh child process, reading /proc/self/task/*/status and probing after every step; plus the budget history: the same 3.7k-instruction filter is loaded on one thread until the kernel's per-thread limit (32768 instructions) refuses it with ENOMEM - after every one of the 12 loads nil <=> the thread's filter count grew; plus valid policies that restrict nothing (an allow group under an allow default, two of them, a deny group without names, the LOG default with a LOG group) loaded once and twice on T0/T1 x tsync x {root, uid 65534}: nil <=> the loading thread's filter count grew by one - 'in force' is a fact about the kernel, not about what the filter forbids"
+	ctx.Cov["rule"] = "explicit-state breadth-first search over the kernel model (3 harness threads + the class of all other threads; per thread: no_new_privs bit and filter stack with ancestry) with 85 operations (Load on T0..T2 x {A,B,invalid (unknown name / argument index 6 / empty condition list, by thread),oversize,badflag,denysec = a filter that answers EPERM to seccomp(2) itself} x tsync x nnp, valid kinds also with the log flag; Supported) from the privileged and the uid-65534 initial state, deduplicated on the canonical model state; every transition is replayed by running its shortest history plus the operation through the real LoadFilter in a fresh child process, reading /proc/self/task/*/status and probing after every step; plus the budget history: the same 3.7k-instruction filter is loaded on one thread until the kernel's per-thread limit (32768 instructions) refuses it with ENOMEM - after every one of the 12 loads nil <=> the thread's filter count grew; plus valid policies that restrict nothing (an allow group under an allow default, two of them, a deny group without names, the LOG default with a LOG group) loaded once and twice on T0/T1 x tsync x {root, uid 65534}: nil <=> the loading thread's filter count grew by one - 'in force' is a fact about the kernel, not about what the filter forbids; plus Supported() on T0/T1 under an outer filter that refuses seccomp(2) for strict mode only (EPERM / ENOSYS) or for the auxiliary operations only (loaded with and without thread-sync, root and uid 65534): the per-thread state is the same before and after"
 	ctx.Assumptions = []string{"kernel model kmodel (validated against this kernel on every transition: model_kernel_mismatches must be 0)", "state deduplication is sound because the compared observables (NNP, filter count, probe answers of every thread) plus the ancestry structure kept in the canonical form are the whole state the kernel rules depend on", "runtime threads other than the three harness threads only change through thread-sync"}
 	return ctx.Finish()
 }
@@ -350,6 +351,24 @@ func replayC09(path string) int {
 		Case struct {
 			Perm bool `json:"permissive_policy"`
 		} `json:"case"`
+	}
+	var se struct {
+		Case struct {
+			Env bool `json:"supported_environment"`
+		} `json:"case"`
+	}
+	if readJSON(path, &se) == nil && se.Case.Env {
+		fmt.Println("replaying Supported() under filters that refuse part of seccomp(2)")
+		c09SupportedEnv(ctx)
+		if ctx.NumViolations() > 0 {
+			for _, l := range ctx.Describe() {
+				fmt.Println(l)
+			}
+			fmt.Println("REPRODUCED")
+			return 1
+		}
+		fmt.Println("not reproduced (property holds in these environments)")
+		return 0
 	}
 	if readJSON(path, &pm) == nil && pm.Case.Perm {
 		fmt.Println("replaying the loads of policies that restrict nothing")
@@ -501,6 +520,53 @@ func c09Permissive(ctx *evid.Ctx) (loads int64) {
 				ctx.Violation("C09:nil-without-filter:permissive:"+j.kind, fmt.Sprintf("load #%d of a valid policy that restricts nothing (%s) returned nil but the loading thread's filter count went %d -> %d: no filter is in force", k+1, j.kind, fb, fa), rep)
 			case ld.Err != nil && fa != fb:
 				ctx.Violation("C09:failed-load-left-filter:permissive:"+j.kind, fmt.Sprintf("load #%d (%s) failed (%s) but the filter count went %d -> %d", k+1, j.kind, *ld.Err, fb, fa), rep)
+			}
+		}
+	})
+	return
+}
+
+// c09SupportedEnv: Supported() must not change anything whatever the kernel answers to its probe. Environments: an outer
+// filter (loaded through the library, with and without thread-sync) that refuses seccomp(2) only for strict mode - with
+// EPERM or ENOSYS, as container profiles do - or only for the operations above SET_MODE_FILTER; then Supported() on the
+// loader's thread and on another one, the per-thread state read before and after.
+func c09SupportedEnv(ctx *evid.Ctx) (probes int64) {
+	type job struct {
+		kind  string
+		priv  bool
+		t     int
+		tsync uint32
+	}
+	var jobs []job
+	for _, k := range []string{"denystrict", "denystrict-enosys", "denyaux"} {
+		for _, priv := range []bool{true, false} {
+			for _, t := range []int{0, 1} {
+				for _, ts := range []uint32{0, 1} {
+					jobs = append(jobs, job{k, priv, t, ts})
+				}
+			}
+		}
+	}
+	parallelFor(len(jobs), func(i int) {
+		j := jobs[i]
+		sc := &histScript{Threads: c09Threads}
+		sc.Ops = append(sc.Ops, histOp{Op: "load", T: 0, Kind: j.kind, Flags: j.tsync, NNP: true}, histOp{Op: "state"}, histOp{Op: "supported", T: j.t}, histOp{Op: "state"}, histOp{Op: "supported", T: j.t}, histOp{Op: "state"})
+		hr := runHist(sc, !j.priv)
+		rep := map[string]any{"privileged": j.priv, "supported_environment": true, "kind": j.kind, "thread": j.t, "tsync": j.tsync}
+		if hr.TimedOut || len(hr.Results) != len(sc.Ops) || hr.Results[0].Err != nil {
+			ctx.Capped("a Supported()-environment child did not complete")
+			return
+		}
+		for k := 0; k < 2; k++ {
+			before, after := hr.Results[1+2*k], hr.Results[3+2*k]
+			atomic.AddInt64(&probes, 1)
+			for _, b := range before.State {
+				for _, a := range after.State {
+					if a.Tid == b.Tid && (a.Filters != b.Filters || a.Seccomp != b.Seccomp || a.NNP != b.NNP) {
+						ctx.Violation("C09:supported:state-changed:"+j.kind, fmt.Sprintf("probing for support (call %d, thread T%d) under a filter that refuses part of seccomp(2) (%s) changed thread %d: filters %d -> %d, mode %d -> %d, no_new_privs %d -> %d", k+1, j.t, j.kind, a.Tid, b.Filters, a.Filters, b.Seccomp, a.Seccomp, b.NNP, a.NNP), rep)
+						return
+					}
+				}
 			}
 		}
 	})
